@@ -33,6 +33,7 @@ type gen struct {
 	r     *simrt.RNG
 	nonce int64
 	prop  string
+	oddTo bool // some transfers go to malformed recipients (C13)
 }
 
 func hx(s string) string { return simrt.H([]byte(s)) }
@@ -53,7 +54,7 @@ func fundBlock() simrt.Op {
 func stateKey(name string, i int) string { return hx(fmt.Sprintf("mavl-%s-k%d", name, i)) }
 func localKey(name string, i int) string { return hx(fmt.Sprintf("LODB-%s-a%d", realExecOf(name), i)) }
 func localDst(name string, i int) string { return hx(fmt.Sprintf("LODB-%s-d%d", realExecOf(name), i)) }
-func localPfx(name string) string       { return hx(fmt.Sprintf("LODB-%s-a", realExecOf(name))) }
+func localPfx(name string) string        { return hx(fmt.Sprintf("LODB-%s-a", realExecOf(name))) }
 
 const nKeys = 4
 
